@@ -34,8 +34,8 @@ BASE = {
     'line': [3, None, 0, 2, 1],
     'ring': [4, None, 0, 3],
     'multiline': [[2, 3], None, [], [1], [2, 0]],
-    'polygon': [[3, 3], None, [], [4], [3]],
-    'multipolygon': [[[3], [3, 3]], None, [], [[4]], [[3]]],
+    'polygon': [[3, 3], None, [], [4], [3, 1]],
+    'multipolygon': [[[3], [3, 3]], None, [], [[4]], [[1], [3]]],
 }
 
 
@@ -87,6 +87,9 @@ DERIVS.update({
     'slice[3:0:-1]': (lambda a: a[3:0:-1], lambda l: l[3:0:-1]),
     'slice[-3:-1]': (lambda a: a[-3:-1], lambda l: l[-3:-1]),
     'iter': (lambda a: type(a)(list(a), dtype=a.dtype), lambda l: l),
+    'slice[3:1]': (lambda a: a[3:1], lambda l: l[3:1]),
+    'slice[-1:2]': (lambda a: a[-1:2], lambda l: l[-1:2]),
+    'slice[1:4][-1:1]': (lambda a: a[1:4][-1:1], lambda l: l[1:4][-1:1]),
     # larger arrays: validity bitmaps longer than one byte, slices at byte-aligned and unaligned offsets
     'big:slice[8:]': (lambda a: a[8:], lambda l: l[8:]),
     'big:slice[3:][5:]': (lambda a: a[3:][5:], lambda l: l[3:][5:]),
